@@ -8,6 +8,7 @@ package tokenV2
 
 import (
 	"bufio"
+	"bytes"
 	"crypto"
 	"crypto/ed25519"
 	b64 "encoding/base64"
@@ -24,6 +25,7 @@ import (
 	"strings"
 	"testing"
 	"time"
+	"unicode"
 
 	"github.com/google/uuid"
 	"github.com/labstack/echo/v4"
@@ -608,7 +610,7 @@ func TestVerifC17(t *testing.T) {
 							continue
 						}
 						info, msg := vAnalyse(v.Tok)
-						verd := map[string]interface{}{}
+						verd := map[string]interface{}{"framing": vDagFramingOK([]byte(v.Tok))}
 						if info.Parses && len(info.Sigs) == 1 {
 							h := msg.Signatures()[0].ProtectedHeaders()
 							verd["otherok"] = vDagOtherHeadersOK(h, msg)
@@ -671,6 +673,25 @@ func TestVerifC17(t *testing.T) {
 	if out.n == 0 {
 		t.Fatal("nothing generated")
 	}
+}
+
+// dag.isJWSSerialization re-stated (unexported there; its body is pinned as a regenerated fact): a JSON object, or exactly
+// three canonical unpadded base64url segments
+func vDagFramingOK(input []byte) bool {
+	if trimmed := bytes.TrimLeftFunc(input, unicode.IsSpace); len(trimmed) > 0 && trimmed[0] == '{' {
+		return true
+	}
+	segments := bytes.Split(input, []byte{'.'})
+	if len(segments) != 3 {
+		return false
+	}
+	for _, segment := range segments {
+		decoded, err := b64.RawURLEncoding.DecodeString(string(segment))
+		if err != nil || b64.RawURLEncoding.EncodeToString(decoded) != string(segment) {
+			return false
+		}
+	}
+	return true
 }
 
 // the parse steps of dag.ParseTransaction that have nothing to do with the signature discipline (payload hash, cty, sigt,
